@@ -690,6 +690,8 @@ class SyncObj(object):
                     logger.error(
                         'request to switch to unsupported code version (self version: %d, requested version: %d)' %
                         (self.__selfCodeVersion, e.ver))
+                    # Stop here: applying the entries that follow would execute them at wrong positions
+                    break
 
             if not self.__conf.appendEntriesUseBatch:
                 needSendAppendEntries = True
